@@ -210,18 +210,44 @@ def assert_wrappers(prog):
     return out
 
 
-def bool_facts(prog, body, blk):
+def _short_circuit(prog, body, local, depth):
+    """`a && b && c` is lowered to a bool local assigned `c` on the path where a and b held and `false` elsewhere: if that local is
+    true, the facts dominating the non-constant assignment hold as well (and symmetrically for `||` chains that are false)."""
+    if local is None or depth > 3:
+        return []
+    ds = [d for d in body.defs().get(local, []) if d[2] == "assign" and not d[3]["pl"]["p"]]
+    if len(ds) < 2 or len(ds) != len(body.defs().get(local, [])):
+        return []
+    consts = [d for d in ds if d[3]["rv"]["k"] == "use" and d[3]["rv"]["o"].get("k") == "const"]
+    rest = [d for d in ds if d not in consts]
+    if len(rest) != 1 or not consts or any(d[3]["rv"]["o"].get("v") is not False for d in consts):
+        return []
+    out = list(bool_facts(prog, body, rest[0][0], depth + 1))
+    rv = rest[0][3]["rv"]
+    out.append((core.describe_rv(prog, body, rv) if rv["k"] != "use" else core.describe(prog, body, rv["o"]), True))
+    if rv["k"] == "use" and core.op_local(rv["o"]) is not None:
+        out.extend(_short_circuit(prog, body, core.op_local(rv["o"]), depth + 1))
+    return out
+
+
+def bool_facts(prog, body, blk, depth=0):
     """[(cond_desc, truth)] holding on entry to blk (from dominating switch edges and assert wrappers)."""
     out = []
     wr = assert_wrappers(prog)
     for s, lab, d, info in core.guards_dominating(prog, body, blk):
         if lab in ("true", "false"):
             out.append((d, lab == "true"))
+            if lab == "true":
+                out.extend(_short_circuit(prog, body, core.op_local(body.term(s)["discr"]), depth))
         elif lab in ("Continue", "Ok"):
             # Try::branch(wrapper(cond)) == Continue  /  wrapper(cond) is Ok
             for c in core.desc_calls(d):
                 if c[1] in wr and c[2]:
                     out.append((c[2][0], True))
+                    if len(c) > 3 and isinstance(c[3], int):
+                        t = body.term(c[3])
+                        if t and t["k"] == "call" and t["args"]:
+                            out.extend(_short_circuit(prog, body, core.op_local(t["args"][0]), depth))
         out.append((("edge", lab, d), True))
     return out
 
